@@ -132,7 +132,7 @@ impl Task {
             if do_eval {
                 nested_env::expand_eval(s, env, nested_env::IfMissing::Empty)
             } else {
-                nested_env::expand(s, env, nested_env::IfMissing::Ignore)
+                nested_env::expand(s, env, nested_env::IfMissing::Defer)
             }
         };
 
